@@ -471,7 +471,9 @@ def _bcast(comm, obj, root):
     if dtype is np.ndarray:
         shape, dtype = (obj.shape, obj.dtype) if master else (None, None)
         shape, dtype = comm.bcast((shape, dtype), root=root)
-        data = obj if master else np.empty(shape, dtype)
+        # The receivers allocate C-ordered buffers
+        data = (np.ascontiguousarray(obj).reshape(shape) if master
+                else np.empty(shape, dtype))
         comm.Bcast(data, root=root)
         return data
     elif dtype is Field:
